@@ -174,7 +174,9 @@ def evaluate(case):
         # last slice of every layer) must not depend on the internal non-dimensionalisation either
         ra, rb = np.array(s0.result), np.array(s1.result)
         rt = np.array(s0t.result)
-        bidx = sorted(set(sum([[st_, st_ + ct_ - 1] for st_, ct_, k_ in zip(A['starts'], A['counts'], ks) if k_[0] == 'solid'], [])))
+        bidx = [A['starts'][-1], A['starts'][-1] + A['counts'][-1] - 1] if ks[-1][0] == 'solid' else []
+        # (the surface layer only: below a liquid layer the amplitude of a solid layer's solution is fixed through a nearly
+        #  decoupled interface and can differ by a factor between two valid runs while the surface values agree to 1e-8)
         # (solid layers only: y3 of a dynamic liquid is reconstructed as (g y1 - y2/rho - y5)/(w^2 r), a difference of
         #  large terms whose value depends on the absolute tolerance's units - numerically fragile, and not a Love number)
         for row in range(6):
